@@ -45,12 +45,13 @@ struct Outcome {
 };
 
 static string pertClass(const vector<Op>& ops) {
-  bool fresh = false, requeue = false;
+  bool fresh = false, requeue = false, other = false;
   for (const Op& o : ops) {
     if (o.k == 'A' || o.k == 'L') fresh = true;
+    else if (o.k == 'C' || o.k == 'Z') other = true;
     else if (o.k != 'G') requeue = true;
   }
-  return fresh ? "fresh" : requeue ? "requeue" : "none";
+  return string(other ? "othermap-" : "") + (fresh ? "fresh" : requeue ? "requeue" : "none");
 }
 
 // the unperturbed run from the current state of w, judged by RefPoll
@@ -385,6 +386,8 @@ static vector<Op> enabledOps(const Cfg& cfg, const SlotView* v) {
   for (int k = 0; k < cfg.n; k++) if (!v[k].present) for (int p : PRIOS) o.push_back({'A', k, p});
   for (int k = 0; k < cfg.n; k++) if (v[k].present) o.push_back({'X', k, 0});
   o.push_back({'L', 0, 0});
+  o.push_back({'C', 0, 0});
+  o.push_back({'Z', 0, 0});
   return o;
 }
 
